@@ -348,6 +348,16 @@ fn inferred_functions(thorough: bool) -> Vec<Case> {
             }
         }
     }
+    // the boundary between superscript and `^n` spelling of an inferred exponent, both signs
+    for e in -12i32..=12 {
+        out.push(cp("inferred exponent boundary", format!("let tq = (2 s)^({e})"), &["tq".into(), "tq * 2".into()]));
+        out.push(cp("inferred exponent boundary", format!("fn fni_a(x) = x^({e})"), &["fni_a(2 m)".into(), "fni_a(3)".into()]));
+        out.push(cp("inferred exponent boundary", format!("fn fni_a(x) = 1 / x^({e})"), &["fni_a(2 m)".into(), "fni_a(3)".into()]));
+        out.push(cp("inferred exponent boundary", format!("fn fni_a(x, y) = x^({e}) / y^({e})"), &["fni_a(2 m, 3 s)".into()]));
+        out.push(cp("inferred exponent boundary", format!("unit uq = (3 m)^({e})"), &["2 uq".into()]));
+        out.push(cp("inferred exponent boundary", format!("struct Sq {{ fa: Length^({e}) }}\nSq {{ fa: (2 m)^({e}) }}"), &[]));
+        out.push(cp("inferred exponent boundary", format!("[(2 m)^({e})]"), &[]));
+    }
     // bodies of other kinds
     for (decl, probes) in [
         ("fn fni_a(x) = x", vec!["fni_a(2 m)", "fni_a(\"a\")", "fni_a([1])", "fni_a(true)"]),
